@@ -48,6 +48,16 @@ var catalogue = []struct{ name, stream string }{
 	{"Content-Length with chunked (response)", "HTTP/1.1 200 OK\r\nContent-Length: x\r\n\r\n"},
 	{"empty chunk size", "POST / HTTP/1.1\r\nHost: a\r\nTransfer-Encoding: chunked\r\n\r\n\r\nabc\r\n0\r\n\r\n"},
 	{"missing final CRLF CR", "POST / HTTP/1.1\r\nHost: a\r\nTransfer-Encoding: chunked\r\n\r\n0\r\nX\n"},
+	{"unsupported Transfer-Encoding (empty value)", "POST / HTTP/1.1\r\nHost: a\r\nTransfer-Encoding:\r\n\r\n"},
+	{"unsupported Transfer-Encoding (blank value)", "POST / HTTP/1.1\r\nHost: a\r\nTransfer-Encoding: \r\n\r\n"},
+	{"repeated Transfer-Encoding (empty first)", "POST / HTTP/1.1\r\nHost: a\r\nTransfer-Encoding:\r\nTransfer-Encoding: chunked\r\n\r\n0\r\n\r\n"},
+	{"repeated Transfer-Encoding (empty second)", "POST / HTTP/1.1\r\nHost: a\r\nTransfer-Encoding: chunked\r\nTransfer-Encoding:\r\n\r\n0\r\n\r\n"},
+	{"unsupported Transfer-Encoding (empty value, response)", "HTTP/1.1 200 OK\r\nTransfer-Encoding:\r\n\r\n"},
+	{"repeated Transfer-Encoding (response)", "HTTP/1.1 200 OK\r\nTransfer-Encoding: chunked\r\nTransfer-Encoding: chunked\r\n\r\n0\r\n\r\n"},
+	{"unsupported Transfer-Encoding (list)", "POST / HTTP/1.1\r\nHost: a\r\nTransfer-Encoding: gzip, chunked\r\n\r\n0\r\n\r\n"},
+	{"hexadecimal Content-Length", "POST / HTTP/1.1\r\nHost: a\r\nContent-Length: 0x2\r\n\r\nab"},
+	{"Content-Length with inner space", "POST / HTTP/1.1\r\nHost: a\r\nContent-Length: 1 0\r\n\r\n0123456789"},
+	{"negative chunk size", "POST / HTTP/1.1\r\nHost: a\r\nTransfer-Encoding: chunked\r\n\r\n-1\r\nabc\r\n0\r\n\r\n"},
 }
 
 func genRobustCase(r *simrt.Rand, tier string) *RobustCase {
